@@ -79,9 +79,10 @@ def regen(ctx=None):
                      "-- root of the Generated library (rewritten from the live /repo by harness/regen.py)\n"
                      "import Generated.Constants\nimport Generated.Registry\n")
     c3 = regen_knn_decision()
+    c3 = regen_seeded() or c3
     write_if_changed(os.path.join(LEAN, "Generated.lean"),
                      "-- root of the Generated library (rewritten from the live /repo by harness/regen.py)\n"
-                     "import Generated.Constants\nimport Generated.Registry\nimport Generated.KnnDecision\n")
+                     "import Generated.Constants\nimport Generated.Registry\nimport Generated.KnnDecision\nimport Generated.Seeded\n")
     if ctx is not None:
         ctx.notes.append(f"regen: Constants changed={c1}, Registry changed={c2}, KnnDecision changed={c3}")
     return c1 or c2 or c3
@@ -128,6 +129,62 @@ def regen_knn_decision():
            ",\n  ".join(rows_) + "]",
            "\nend Umap.Generated"]
     return write_if_changed(os.path.join(LEAN, "Generated", "KnnDecision.lean"), "\n".join(out) + "\n")
+
+
+
+
+def observe_seeded(random_state, n_jobs):
+    """what the live UMAP does for a (random_state, n_jobs) pair on a tiny fit:
+    (n_jobs in force during fit, `parallel` flag handed to the layout stage in fit, in transform)"""
+    import warnings
+    import numpy as np
+    import umap
+    import umap.umap_ as U
+    import umap.layouts as L
+    seen = {}
+    orig_sse = U.simplicial_set_embedding
+    orig_ole = U.optimize_layout_euclidean
+
+    def sse(*a, **k):
+        seen["fit_parallel"] = bool(k.get("parallel", a[19] if len(a) > 19 else False))
+        return orig_sse(*a, **k)
+
+    def ole(*a, **k):
+        seen.setdefault("calls", []).append(bool(k.get("parallel", a[13] if len(a) > 13 else False)))
+        return orig_ole(*a, **k)
+
+    U.simplicial_set_embedding = sse
+    U.optimize_layout_euclidean = ole
+    try:
+        with warnings.catch_warnings():
+            warnings.simplefilter("ignore")
+            X = np.random.RandomState(0).normal(size=(30, 3)).astype(np.float32)
+            m = umap.UMAP(n_neighbors=5, n_epochs=3, random_state=random_state, n_jobs=n_jobs).fit(X)
+            jobs = int(m.n_jobs)
+            seen["calls"] = []
+            m.transform(X[:4] + 0.01)
+            tpar = bool(seen["calls"][-1]) if seen["calls"] else False
+    finally:
+        U.simplicial_set_embedding = orig_sse
+        U.optimize_layout_euclidean = orig_ole
+    return jobs, bool(seen.get("fit_parallel", False)), tpar
+
+
+def regen_seeded():
+    rows = []
+    for rs, name in ((None, "none"), (0, "zero"), (42, "int")):
+        for nj in (1, -1, 4):
+            jobs, fpar, tpar = observe_seeded(rs, nj)
+            b = lambda x: "true" if x else "false"
+            rows.append(f"(({lstr(name)}, {b(rs is not None)}, ({nj} : Int), ({jobs} : Int), {b(fpar)}, {b(tpar)}))")
+    out = ["/- GENERATED from the live /repo package by harness/regen.py — do not edit.",
+           "   Observed on a tiny fit + transform: (seed kind, seeded?, n_jobs requested, n_jobs in force, parallel flag given to the",
+           "   layout stage in fit, parallel flag given to the layout optimiser in transform). -/",
+           "namespace Umap.Generated\n",
+           "def seededTable : List (String × Bool × Int × Int × Bool × Bool) := [",
+           ",\n  ".join(rows) + "]",
+           "\nend Umap.Generated"]
+    return write_if_changed(os.path.join(LEAN, "Generated", "Seeded.lean"), "\n".join(out) + "\n")
 
 
 if __name__ == "__main__":
